@@ -4,6 +4,7 @@ import (
 	"encoding/json"
 	"fmt"
 	"sort"
+	"strconv"
 	"strings"
 	"sync/atomic"
 
@@ -405,6 +406,16 @@ var c19SetCoins = map[int]*c19Coin{
 var c19SetValue = map[int]int64{1: 1, 2: 3, 3: 5}
 var c19SetAge = map[int]int64{1: 2, 2: 3, 3: 0}
 
+// coins 4..160 of the long-history family: pairwise different values (1000+id) and confirmations
+func init() {
+	for id := 4; id <= 160; id++ {
+		v, cf := int64(1000+id), int64(id%5)
+		c19SetCoins[id] = c19NewCoin(id, v, cf)
+		c19SetValue[id] = v
+		c19SetAge[id] = v * cf
+	}
+}
+
 var c19Inits = func() [][]int {
 	out := [][]int{{}}
 	for a := 1; a <= 3; a++ {
@@ -528,8 +539,11 @@ func c19RunHist(w *mc.W, cas c19Hist, countFrom int) (modelKey, implKey string, 
 		var wantOK, removes bool
 		msg, p := mc.Guard(func() {
 			switch op {
-			case "push1", "push2", "push3":
-				id := int(op[4] - '0')
+			default:
+				if !strings.HasPrefix(op, "push") || c19SetCoins[func() int { n, _ := strconv.Atoi(op[4:]); return n }()] == nil {
+					panic("c19: unknown op " + op)
+				}
+				id, _ := strconv.Atoi(op[4:])
 				set.PushCoin(c19SetCoins[id])
 				m.Push(id)
 			case "pop":
@@ -540,8 +554,6 @@ func c19RunHist(w *mc.W, cas c19Hist, countFrom int) (modelKey, implKey string, 
 				removes = true
 				ret = set.ShiftCoin()
 				wantID, wantOK = m.Shift()
-			default:
-				panic("c19: unknown op " + op)
 			}
 		})
 		c19OpsExecuted.Add(1)
@@ -1071,6 +1083,75 @@ func runC19(c *mc.Ctx) {
 		per += s
 	}
 	nHist := per * int64(len(c19Inits))
+	// LONG histories: sets of up to ~80 distinct coins.  A container that keeps its coins in a ring or a
+	// slice with spare capacity behaves differently exactly when it grows or wraps, which a set of at
+	// most ten coins never does.  Shape: NewCoinSet(n0 coins); a shifts; b pushes; c pops; d pushes;
+	// then the set is drained by shifts (even drain steps) and pops (odd) - every combination of
+	// n0 in 0..20, 31..33, 64 (quick: fewer), a in 0..3, b in 0..20, c in 0..2, d in {0, 1, 2, 17, 18};
+	// the model is compared after construction, after each phase and after every drain step.
+	{
+		var longs []c19Hist
+		n0s := mc.Pick(c, []int{0, 1, 2, 7, 8, 9, 15, 16, 17, 31, 32, 33, 64}, []int{0, 1, 2, 3, 4, 5, 6, 7, 8, 9, 10, 11, 12, 13, 14, 15, 16, 17, 18, 19, 20, 31, 32, 33, 63, 64, 65})
+		for _, n0 := range n0s {
+			for a := 0; a <= 3; a++ {
+				for b := 0; b <= 20; b++ {
+					for cpop := 0; cpop <= 2; cpop++ {
+						for _, d := range []int{0, 1, 2, 17, 18} {
+							if c.Quick() && (b%2 == 1 && b > 4) {
+								continue
+							}
+							h := c19Hist{}
+							next := 4
+							for i := 0; i < n0; i++ {
+								h.Init = append(h.Init, next)
+								next++
+							}
+							for i := 0; i < a; i++ {
+								h.Ops = append(h.Ops, "shift")
+							}
+							for i := 0; i < b; i++ {
+								h.Ops = append(h.Ops, fmt.Sprintf("push%d", next))
+								next++
+							}
+							for i := 0; i < cpop; i++ {
+								h.Ops = append(h.Ops, "pop")
+							}
+							for i := 0; i < d; i++ {
+								h.Ops = append(h.Ops, fmt.Sprintf("push%d", next))
+								next++
+							}
+							left := n0 - a
+							if left < 0 {
+								left = 0
+							}
+							left += b
+							left -= cpop
+							if left < 0 {
+								left = 0
+							}
+							left += d
+							for i := 0; i <= left; i++ { // one step beyond empty
+								if i%2 == 0 {
+									h.Ops = append(h.Ops, "shift")
+								} else {
+									h.Ops = append(h.Ops, "pop")
+								}
+							}
+							// observers run after construction and from the end of the pushes on; the
+							// bulk of the build-up is left unobserved (mask covers the first 32 points)
+							h.Skip = ^uint32(0) &^ 1
+							longs = append(longs, h)
+						}
+					}
+				}
+			}
+		}
+		c.Space("coin-set long histories: NewCoinSet(n0) ; shifts ; pushes ; pops ; pushes ; drain (sets of up to ~100 distinct coins)", int64(len(longs)))
+		c.ParFor(int64(len(longs)), func(w *mc.W, i int64) {
+			w.State()
+			c19RunHist(w, longs[i], 0)
+		})
+	}
 	c.Space(fmt.Sprintf("coin-set histories: 13 initial sets x every operation sequence of length <= %d (no merging)", flatDepth), nHist)
 	c.ParFor(nHist, func(w *mc.W, i int64) {
 		h := c19HistAt(i, flatDepth)
